@@ -66,6 +66,8 @@ class Gen:
             x = r.random()
             if x < p["gate"]:
                 pre.append(["g"] if r.random() >= p.get("qwait", 0.08) else ["q"])
+            elif depth == 0 and r.random() < p.get("iflush", 0.04):
+                pre.append(["f"])
             elif depth == 0 and x < p["gate"] + p["inner_ops"]:
                 pre.append(["op", self.inner_op(pool)])
                 if not (self.allow_scns and r.random() < 0.5):
@@ -196,7 +198,7 @@ class Gen:
         if not s["marker"] and r.random() < 0.4:
             s["flavour"] = "method"
         elif s["gname"] is not None and r.random() < 0.3:
-            s["flavour"] = "partial"
+            s["flavour"] = r.choice(["partial", "partial", "object", "partial_object"])
         if depth == 0:
             s["ecb"], s["ccb"] = self.cb(pool), self.cb(pool)
             s["bodies"] = self.bodies(pool)
@@ -220,7 +222,7 @@ class Gen:
              "iter": r.choice(["gen"] * 5 + ["list", "tuple", "dictvalues"]),
              "ecb": self.cb(pool), "ccb": self.cb(pool), "bodies": self.bodies(pool)}
         if s["gname"] is not None and r.random() < 0.3:
-            s["flavour"] = "partial"
+            s["flavour"] = r.choice(["partial", "partial", "object", "partial_object"])
         if n and r.random() < p["bad_elems"] and (kind != "map" or s["marker"]):
             s["bad"] = sorted({r.randrange(n) for _ in range(r.choice([1, 1, 2, 3]))})
         if n and kind != "map" and r.random() < 0.2:
